@@ -313,6 +313,7 @@ func (d *Decoder) CheckIntegrity() (seq int, err error) {
 	// Reset used variables so that the decoder can be reused by the same reader.
 	d.reset()
 	d.n = 0 // Must reset bytes counter
+	d.readBuffer.cur, d.readBuffer.last = 0, 0 // Drop buffered bytes, the reader is expected to be reset afterward.
 	d.options.shouldChecksum = shouldChecksum
 
 	return seq, err
